@@ -134,3 +134,9 @@ pub fn estimate_log_prob_resp_g<F: Float, D: Data<Elem = F>>(
 ) -> (Array1<F>, Array2<F>) {
     gmm.estimate_log_prob_resp(observations)
 }
+
+/// `compute_precisions_cholesky_full` for either scalar type (Cholesky factor of each covariance,
+/// triangular solve against the identity, transposed)
+pub fn compute_precisions_cholesky_full_g<F: Float>(covariances: &Array3<F>) -> Result<Array3<F>, GmmError> {
+    GaussianMixtureModel::<F>::compute_precisions_cholesky_full(covariances)
+}
